@@ -483,31 +483,36 @@ func main() {
 	p("def indexWrite : String := %s\n", strconv.Quote(writeKind(funcDecl(indexGo, "ToFile"))))
 
 	// --- commitBytes call order; link branch of commitFileArtifact
+	// (looking through same-package helpers: see deep.go)
+	cachePkg := pkgFuncs(root, "src/cache")
 	if fd := funcDecl(commitGo, "commitBytes"); fd != nil {
 		var order []string
-		for _, c := range calls(fd) {
+		for _, c := range callsDeep(cachePkg, fd, 3, map[*ast.FuncDecl]bool{}) {
 			switch c {
 			case "os.CreateTemp", "checksum.Checksum", "os.MkdirAll", "os.Rename", "os.Chmod", "os.Remove", "os.WriteFile", "os.Create", "io.Copy":
 				order = append(order, c)
 			}
 		}
 		p("def commitBytesOrder : List String := %s\n", leanStrList(order))
-		// rename target and chmod argument
-		renameArgs, chmodArgs := "", ""
-		ast.Inspect(fd, func(m ast.Node) bool {
-			if ce, ok := m.(*ast.CallExpr); ok {
-				switch src(ce.Fun) {
-				case "os.Rename":
-					renameArgs = canon(fd, ce.Args[0]) + "," + canon(fd, ce.Args[1])
-				case "os.Chmod":
-					chmodArgs = canon(fd, ce.Args[0]) + "," + canon(fd, ce.Args[1])
-				case "os.CreateTemp":
-					p("def commitTempDir : String := %s\n", strconv.Quote(canon(fd, ce.Args[0])))
-				}
+		// what the rename moves where, and what is made read-only: by derivation, not by variable names
+		interesting := []string{"$param1", "$recv", "call:os.CreateTemp", "call:PathForChecksum", "call:checksum.Checksum"}
+		var renames, chmods []string
+		tempDir := "?"
+		for _, h := range findDeep(cachePkg, fd, nil, 3, map[*ast.FuncDecl]bool{}, func(n ast.Node) bool {
+			ce, ok := n.(*ast.CallExpr)
+			return ok && (src(ce.Fun) == "os.Rename" || src(ce.Fun) == "os.Chmod" || src(ce.Fun) == "os.CreateTemp")
+		}) {
+			switch src(h.call.Fun) {
+			case "os.Rename":
+				renames = append(renames, "src:"+sourcesAmong(h.d, h.call.Args[0], interesting)+";dst:"+sourcesAmong(h.d, h.call.Args[1], interesting))
+			case "os.Chmod":
+				chmods = append(chmods, sourcesAmong(h.d, h.call.Args[0], interesting)+";"+src(h.call.Args[1]))
+			case "os.CreateTemp":
+				tempDir = sourcesAmong(h.d, h.call.Args[0], []string{"$recv", "field:dir", "$param0", "$param1"})
 			}
-			return true
-		})
-		p("def commitRenameArgs : String := %s\ndef commitChmodArgs : String := %s\n", strconv.Quote(renameArgs), strconv.Quote(chmodArgs))
+		}
+		p("def commitTempDir : String := %s\n", strconv.Quote(tempDir))
+		p("def commitRenameArgs : String := %s\ndef commitChmodArgs : String := %s\n", strconv.Quote(strings.Join(renames, "|")), strconv.Quote(strings.Join(chmods, "|")))
 	}
 	if fd := funcDecl(commitGo, "commitFileArtifact"); fd != nil {
 		var order []string
@@ -660,18 +665,28 @@ func main() {
 	p("def dedicatedCaps : List String := %s\n", leanStrList([]string{
 		dedCap(funcDecl(commitGo, "startCommitWorkers")), dedCap(funcDecl(checkoutGo, "startCheckoutWorkers")), dedCap(funcDecl(statusGo, "startStatusWorkers"))}))
 
-	// --- fetch: children keyed by
+	// --- fetch: the map of the next level's artifacts (values read from a fetched manifest) is keyed by which field
 	if fd := funcDecl(parse(root, "src/cache/fetch.go"), "Fetch"); fd != nil {
 		key := "?"
-		ast.Inspect(fd, func(m ast.Node) bool {
-			if as, ok := m.(*ast.AssignStmt); ok && len(as.Lhs) == 1 {
-				// the map of the next level's artifacts: an index assignment whose value is an Artifact of a manifest
-				if ie, ok := as.Lhs[0].(*ast.IndexExpr); ok && (src(ie.X) == "children" || strings.HasSuffix(src(ie.Index), ".Checksum") || strings.HasSuffix(src(ie.Index), ".Path")) {
-					key = canon(fd, ie.Index)
-				}
+		for _, h := range findDeep(cachePkg, fd, nil, 3, map[*ast.FuncDecl]bool{}, func(n ast.Node) bool {
+			as, ok := n.(*ast.AssignStmt)
+			if !ok || len(as.Lhs) != 1 || len(as.Rhs) != 1 {
+				return false
 			}
-			return true
-		})
+			_, isIdx := as.Lhs[0].(*ast.IndexExpr)
+			return isIdx
+		}) {
+			as := h.node.(*ast.AssignStmt)
+			ie := as.Lhs[0].(*ast.IndexExpr)
+			if !h.d.exprSources(as.Rhs[0])["call:readDirManifest"] {
+				continue
+			}
+			if se, ok := ie.Index.(*ast.SelectorExpr); ok && h.d.exprSources(se.X)["call:readDirManifest"] {
+				key = "manifest-entry." + se.Sel.Name
+			} else {
+				key = "?" + src(ie.Index)
+			}
+		}
 		p("def fetchChildKey : String := %s\n", strconv.Quote(key))
 	}
 	p("def pushSetsPerms : Bool := %s\n", leanBool(func() bool {
